@@ -174,6 +174,11 @@ def run(ctx):
                     for o in g:
                         o.tag = rng.choice([None, None, "t", 1])
                     struct = np.array(g, dtype=object).reshape(shape)
+                    if len(shape) >= 2 and rng.random() < 0.5:
+                        # the same logical array held as a transposed (non C-contiguous) view: what is written is the logical order
+                        struct = np.array(g, dtype=object).reshape(shape[::-1]).transpose()
+                        g = list(struct.ravel())
+                        ctx.count("Array given as a transposed view")
                     typ, layout = "Array", str(shape).lstrip("(").rstrip(")").rstrip(",")
                     tagj = None if all(o.tag is None for o in g) else [o.tag for o in g]
                 else:
